@@ -14,8 +14,8 @@ Five families of cells ("what"):
 
 The oracle uses only torch.linalg.eigvalsh on the dense float64 matrix that the public API returns.
 """
+import contextlib
 import itertools
-import math
 import warnings
 
 import torch
@@ -322,10 +322,12 @@ def run_gram(cell, seed, fails, feats):
             diff = (xf.unsqueeze(-2) - xf.unsqueeze(-3)).norm(dim=-1)          # direct differences: no cancellation
             dmin = float(diff[~torch.eye(n, dtype=torch.bool)].min())
             st = check_cov(fails, "gram", Kd, detail=f"K = {name}(x).to_dense(), min pairwise distance {dmin:.3e}, x = {xx.tolist()}")
-            # the two-argument call is the same Gram matrix
-            K2 = k(xx, xx.clone()).to_dense()
+            # the same Gram matrix through the two-argument call, evaluated eagerly; reported when it adds information
+            with settings.lazily_evaluate_kernels(False):
+                K2 = util.dense(k(xx, xx.clone()))
             ops += 1
-            check_cov(fails, "gram-x1x2", K2, detail=f"K = {name}(x, x.clone()).to_dense(), x = {xx.tolist()}")
+            if not fails:
+                check_cov(fails, "gram-eager", K2, detail=f"K = {name}(x, x.clone()) under lazily_evaluate_kernels(False), x = {xx.tolist()}")
             return "gram:%s" % ("psd" if st and st.get("lmin", -1) >= 0 else "psd-rounding"), ops
     return "gram:exc", ops
 
@@ -390,7 +392,9 @@ def build_model(fam, theta, seed, d):
                 elif k.endswith("natural_vec"):
                     sd[k] = sd[k] / f
             m.load_state_dict(sd)
-        return m, None
+        vs = getattr(m.variational_strategy, "base_variational_strategy", m.variational_strategy)
+        Z = vs.inducing_points.detach()
+        return m, (Z if Z.dim() == 2 else Z[0])      # "attrain" = test points at inducing points
     X, y = models.data(seed, 0, fam, d)
     m = models.ExactModel(X, y, fam, seed)
     if theta:
@@ -678,8 +682,6 @@ def run_floor(cell, seed, fails, feats):
         lik.eval()
         Xs = test_points(g, geom, X, 1)
         want = settings.min_variance.value(F64) if mv is None else mv
-        import contextlib
-
         ctx = settings.min_variance(double_value=mv) if mv is not None else contextlib.nullcontext()
         with ctx, settings.fast_pred_var(fpv):
             with fails.guard("posterior-variance"):
